@@ -482,7 +482,7 @@ func runShard(exe, id, tier string, seed int64, shard, nshards int, wd string, t
 	cmd := exec.Command(exe, "worker", id, tier, strconv.FormatInt(seed, 10), strconv.Itoa(shard), strconv.Itoa(nshards), wd)
 	cmd.Stdout = ef
 	cmd.Stderr = ef
-	cmd.Env = append(os.Environ(), "GOTRACEBACK=all", "GORACE=halt_on_error=0 log_path="+filepath.Join(wd, "race"))
+	cmd.Env = append(os.Environ(), "GOTRACEBACK=all", "GORACE=halt_on_error=0 exitcode=0 log_path="+filepath.Join(wd, "race"))
 	if err := cmd.Start(); err != nil {
 		o.exit = "start: " + err.Error()
 		return o
